@@ -22,8 +22,8 @@
 /* one ghost index per container kind, used consistently by every contract:
  *   vf_gf stored frames        vf_gj points of a frame / channels of a sub-frame   vf_gk sub-frames of a frame
  *   vf_gb byte offset in an output stream   vf_gc characters of a string   vf_gg groups   vf_gp parameters of a group   vf_gd dimensions   vf_gv values */
-extern size_t vf_gk, vf_gj, vf_gc, vf_gf, vf_gg, vf_gp, vf_gd, vf_gv, vf_gn, vf_gf2, vf_gb;
-#define VF_GHOSTS size_t vf_gk, vf_gj, vf_gc, vf_gf, vf_gg, vf_gp, vf_gd, vf_gv, vf_gn, vf_gf2, vf_gb;
+extern size_t vf_gk, vf_gj, vf_gc, vf_gf, vf_gg, vf_gp, vf_gd, vf_gv, vf_gn, vf_gf2, vf_gb, vf_gb2;
+#define VF_GHOSTS size_t vf_gk, vf_gj, vf_gc, vf_gf, vf_gg, vf_gp, vf_gd, vf_gv, vf_gn, vf_gf2, vf_gb, vf_gb2;
 
 /* container sizes are capped so that element addresses stay inside CBMC's 55-bit offsets; 10^5 is far above
  * anything the format can carry (65535 frames, 255 points, 255 parameters) */
